@@ -510,6 +510,10 @@ def did_call(name, *args, **kw):
     raise NotCheckable('call log')
 
 
+def made(x):
+    raise NotCheckable('call log')
+
+
 def exited(cm):
     raise NotCheckable('context-manager log')
 
@@ -741,6 +745,8 @@ def namespace():
     ns['ValueOrListConverter'] = _pty.ValueOrListConverter
     import dataclasses as _dcs
     ns['FrozenInstanceError'] = _dcs.FrozenInstanceError
+    import io as _io
+    ns['StringIO'] = _io.StringIO
     ns['Condition'] = _ann.Condition
     ns['Tagged'] = _ann.Tagged
     import typing as _t
